@@ -128,6 +128,26 @@ class Check(DiffCheck):
                                 if dlmode == 3 and c == victim: tm = 10 + 10 * di + D
                                 calls.append((0, tm, 4 + c, [-1, 16, 2, 64][c % 4]))
                             cs.append(self._case(fix, calls, items, deliv))
+        # end of stream at every byte k of a two-response wire (delivered in one piece / byte by byte around k)
+        calls2 = [(0, -1, 4, -1), (0, -1, 5, 16)]
+        items2 = self._resp(2, 5, 11) + self._resp(1, 3, 1)
+        total2 = 40 + 5 + 40 + 3
+        for kbyte in range(total2 + 1):
+            cs.append(self._case(fix, calls2, items2, [(10, kbyte), (20, 'E')] if kbyte else [(20, 'E')]))
+            if kbyte % 3 == 0 or tier != 'quick':
+                cs.append(self._case(fix, [(0, 500, 4, -1), (0, -1, 5, 16)], items2,
+                                     ([(10, max(kbyte - 1, 0))] if kbyte > 1 else []) + ([(30, 1)] if kbyte else []) + [(40, 'E')]))
+        # an unknown / duplicate tag at every position among the responses of k = 2, 3 callers
+        for k in (2, 3):
+            callsk = [(0, -1, 4 + c, [-1, 16, 2][c]) for c in range(k)]
+            for perm in itertools.permutations(range(k)):
+                base = [self._resp(c + 1, 3 + 2 * c, 10 * c + 1) for c in perm]
+                for pos in range(k + 1):
+                    for extra in (self._resp(99, 4, 200), self._resp(99, 0, 0), self._resp(perm[0] + 1, 3 + 2 * perm[0], 90)):
+                        its = [x for r in (base[:pos] + [extra] + base[pos:]) for x in r]
+                        tot = len(wire_bytes(' ; '.join(its)))
+                        cs.append(self._case(fix, callsk, its, [(10, tot)]))
+                        cs.append(self._case(fix, callsk, its, [(10 + 5 * j, 1 if j % 2 else 39) for j in range(tot // 20 + 2)] + [(900, tot)]))
         # random scripts
         n = 700 if tier == 'quick' else 12000
         for _ in range(n):
